@@ -104,7 +104,7 @@ func (fc *FnCtx) evalSpec(env *Env, e *Expr) Val {
 		bv := mkConst(vn, SInt)
 		body := fc.evalSpecBool(env.with(e.Name, mathInt(bv)), e.Args[2])
 		guard := mkAnd(mkLe(lo.T, bv), mkLt(bv, hi.T))
-		return boolVal(&Term{Op: "forall", Sort: SBool, Name: vn, Args: []*Term{mkImp(guard, body)}})
+		return boolVal(mkForall(vn, mkImp(guard, body)))
 	case "bin":
 		return fc.specBin(env, e)
 	case "sel":
@@ -401,7 +401,7 @@ func (fc *FnCtx) specCall(env *Env, e *Expr) Val {
 		bv := mkConst(vn, SInt)
 		el := fc.memSel(env.heap, s.Arr, mkAdd(s.Off, bv))
 		body := mkImp(mkAnd(mkLe(mkI(0), bv), mkLt(bv, s.Len)), mkAnd(mkLe(mkI(0), el), mkLt(el, mkInt(specB))))
-		return boolVal(&Term{Op: "forall", Sort: SBool, Name: vn, Args: []*Term{body}})
+		return boolVal(mkForall(vn, body))
 	case "sameslice": // same (arr, off, len)
 		a, b := fc.specSliceArg(env, e.Args[0]), fc.specSliceArg(env, e.Args[1])
 		return boolVal(mkAnd(mkEq(a.Arr, b.Arr), mkEq(a.Off, b.Off), mkEq(a.Len, b.Len)))
@@ -521,7 +521,7 @@ func (fc *FnCtx) wordsEqual(ha map[string]*Term, a Val, hb map[string]*Term, b V
 	bv := mkConst(vn, SInt)
 	body := mkImp(mkAnd(mkLe(mkI(0), bv), mkLt(bv, a.Len)),
 		mkEq(fc.memSel(ha, a.Arr, mkAdd(a.Off, bv)), fc.memSel(hb, b.Arr, mkAdd(b.Off, bv))))
-	return mkAnd(mkEq(a.Len, b.Len), &Term{Op: "forall", Sort: SBool, Name: vn, Args: []*Term{body}})
+	return mkAnd(mkEq(a.Len, b.Len), mkForall(vn, body))
 }
 
 // specUnchanged: e has the same value now as at entry.  For a *Decimal it covers every
@@ -729,7 +729,7 @@ func (fc *FnCtx) evalLemma(env *Env, e *Expr) Val {
 		vn := fmt.Sprintf("?%s_%d", e.Name, fc.nfresh)
 		bv := mkConst(vn, SInt)
 		body := fc.evalLemmaBool(env.with(e.Name, mathInt(bv)), e.Args[2])
-		return boolVal(&Term{Op: "forall", Sort: SBool, Name: vn, Args: []*Term{mkImp(mkAnd(mkLe(lo.T, bv), mkLt(bv, hi.T)), body)}})
+		return boolVal(mkForall(vn, mkImp(mkAnd(mkLe(lo.T, bv), mkLt(bv, hi.T)), body)))
 	case "cond":
 		c := fc.evalLemmaBool(env, e.Args[0])
 		a := fc.evalLemma(env, e.Args[1])
